@@ -201,7 +201,7 @@ async def key_case(p0, p1, roles, ice_roles, rng, out):
                 if n % 3 == 0:
                     sent[i]["rtcp"].append(1000 * (i + 1) + n)
                     await pair.t[i]._send_rtp(sr_bytes(1000 + i, 1000 * (i + 1) + n))
-                d = f"{'AB'[i]}-data-{n}-".encode() + rng.randbytes(rng.choice([1, 50, 1000]))
+                d = f"{'AB'[i]}-data-{n}-".encode() + rng.randbytes(rng.choice([1, 50, 1000, 1190, 1250, 1300, 1400]))
                 sent[i]["data"].append(d)
                 await pair.t[i]._send_data(d)
         await pair.settle()
